@@ -1345,7 +1345,15 @@ class C08Run(StateRun):
                 sim.probe('wait-requested-after-deciding-event' if decided else 'wait-requested-before-deciding-event')
                 sim.log('when_built()', mc.id, mc.state)
                 nest = self.nested_wait if ch.chance(1, 3, 'nestwait') else None
-                self.waits.append(Wait('when_built', mc, mc.real.when_built(), on_fire=nest))
+                if ch.chance(1, 4, 'legacyisbuilt'):
+                    # the deprecated spelling: the is_built attribute; the caller goes on to use its Deferred like any
+                    # other (here: maps the circuit to its id, swallows a failure), which must not leak into later waits
+                    sim.probe('wait-through-legacy-is_built')
+                    d = mc.real.is_built
+                    self.waits.append(Wait('when_built', mc, d, on_fire=nest))
+                    d.addCallbacks(lambda c: getattr(c, 'id', None), lambda f: None)
+                else:
+                    self.waits.append(Wait('when_built', mc, mc.real.when_built(), on_fire=nest))
             else:
                 sim.probe('wait-requested-after-deciding-event' if mc.gone else 'wait-requested-before-deciding-event')
                 sim.log('when_closed()', mc.id, mc.state)
